@@ -1,5 +1,6 @@
 import BbRe.Lemmas.SchedLiveFuel
 import BbRe.Lemmas.SchedLiveQuiesce6
+import BbRe.Lemmas.SchedLiveDrain
 /-!
 # C06 — failures time out, wake everyone, and leak nothing
 
@@ -262,15 +263,46 @@ theorem woken_worker_wakes (h : Hints) (s : State) (hs : Reachable s) (qq : ScqI
   obtain ⟨a, b, _⟩ := ((winv_reachable hs).ok wk (worker?_mem hwk).1).woken hwo
   exact ⟨a, b, syncWake_woken h s qq ww wk hwk a hwo⟩
 
-/-- **every_sleeper_wakes (workers, undrain).**  A worker blocked on `undrainWakeup` whose snapshot is
+/-- **undrain snapshot invariant.**  In every reachable state the generation captured by a worker blocked
+on `undrainWakeup` is not ahead of its queue's current generation: the captured channel is the current one
+or an already closed one.  (Uses both the worker and the cleanup invariants: a queue is only removed —
+and possibly re-created with generation 0 — when it has no workers.) -/
+theorem undrain_snapshot (s : State) (hs : Reachable s) (wk : Worker) (hm : wk ∈ s.workers) (g : Nat)
+    (hdw : wk.drainWait = some g) (sq : Scq) (hsq : s.scq? wk.scq = some sq) : g ≤ sq.undrainGen :=
+  dinv_reachable hs wk hm g hdw sq hsq
+
+/-- **every_sleeper_wakes (workers, stale snapshot).**  A worker blocked on `undrainWakeup` whose snapshot is
 stale passes the guards of its wake segment and re-evaluates the drains. -/
-theorem undrained_worker_wakes (h : Hints) (s : State) (hs : Reachable s) (qq : ScqId) (ww : WId) (wk : Worker)
+theorem stale_snapshot_wakes (h : Hints) (s : State) (hs : Reachable s) (qq : ScqId) (ww : WId) (wk : Worker)
     (sq : Scq) (g : Nat) (hwk : s.worker? qq ww = some wk) (hsq : s.scq? qq = some sq)
     (hdw : wk.drainWait = some g) (hg : g ≠ sq.undrainGen) :
     wk.inSync = true ∧ wk.task = none ∧
     syncWake h s s.now qq ww 3 = getNextTask h (s.setWorker { wk with drainWait := none }) qq ww false true := by
   obtain ⟨a, b⟩ := ((winv_reachable hs).ok wk (worker?_mem hwk).1).dwait (by simp [hdw])
   exact ⟨a, b, syncWake_undrained h s qq ww wk sq g hwk a hsq hdw hg⟩
+
+/-- **every_sleeper_wakes (workers, undrain).**  After every successful `RemoveDrain` segment on a queue, each
+worker of that queue that is blocked on `undrainWakeup` — whenever it started waiting — has a stale snapshot:
+its wake segment passes the guards and it re-evaluates the drains.  No hypothesis on the snapshot is needed
+(it follows from `undrain_snapshot`). -/
+theorem undrained_worker_wakes (h h' : Hints) (s s' : State) (hs : Reachable s) (now : Nat) (qq : ScqId) (p : Pattern)
+    (hstep : step s (.removeDrain h now qq p) = .ok s') (ww : WId) (wk : Worker) (g : Nat)
+    (hwk : s'.worker? qq ww = some wk) (hdw : wk.drainWait = some g) :
+    wk.inSync = true ∧ wk.task = none ∧
+    syncWake h' s' s'.now qq ww 3 = getNextTask h' (s'.setWorker { wk with drainWait := none }) qq ww false true := by
+  obtain ⟨sq', hsq', hlt⟩ := removeDrain_stale hs hstep hwk hdw
+  exact stale_snapshot_wakes h' s' (Reachable.step _ hs hstep) qq ww wk sq' g hwk hsq' hdw (Nat.ne_of_lt hlt)
+
+/-- non-vacuity: a worker of a drained queue blocks with snapshot 0; after `RemoveDrain` (generation 1) its
+wake segment succeeds and the worker parks as an idle, undrained worker. -/
+def drainDemo : List Seg :=
+  [.register 1 [] 7 [0] 0 0, .addDrain h0 1 q ⟨some 1, none⟩, .sync h0 2 q [] 7 w .idle false]
+def sDrain : State := run (State.init cfg) drainDemo
+example : sDrain.workers.map (fun wk => wk.drainWait) = [some 0] := by decide
+example : ∃ s', step sDrain (.removeDrain h0 3 q ⟨some 1, none⟩) = .ok s' ∧
+    s'.workers.map (fun wk => wk.drainWait) = [some 0] ∧ s'.scqs.map (·.undrainGen) = [1] := ⟨_, rfl, by decide⟩
+example : (run sDrain [.removeDrain h0 3 q ⟨some 1, none⟩, .syncWake h0 3 q w 3]).workers.map
+    (fun wk => (wk.drainWait, wk.parked)) = [(none, true)] := by decide
 
 /-- **every_sleeper_wakes (workers, timeout).**  The timeout of a blocked `Synchronize` returns `idle`. -/
 theorem blocked_worker_times_out (h : Hints) (s : State) (qq : ScqId) (ww : WId) (wk : Worker)
